@@ -155,8 +155,70 @@ def normalise_dispatch(tree: ast.Module) -> list[str]:
     a.visit(tree)
     f = FlattenLoopNormaliser()
     f.visit(tree)
+    w = WithConstructorNormaliser(tree)
+    w.visit(tree)
     ast.fix_missing_locations(tree)
-    return t.log + p.log + a.log + f.log
+    return t.log + p.log + a.log + f.log + w.log
+
+
+class WithConstructorNormaliser(ast.NodeTransformer):
+    """`x = C(...)` immediately followed by `with x:` where C is a class of
+    this module whose __enter__ returns self is `with C(...) as x:` - the
+    spelling the resource rules are written for."""
+
+    def __init__(self, tree: ast.Module):
+        self.log: list[str] = []
+        self.self_enter: set[str] = set()
+        for n in ast.walk(tree):
+            if isinstance(n, ast.ClassDef):
+                for m in n.body:
+                    if isinstance(m, ast.FunctionDef) and m.name == "__enter__":
+                        body = [s for s in m.body if not (isinstance(
+                            s, ast.Expr) and isinstance(s.value, ast.Constant))]
+                        if len(body) == 1 and isinstance(
+                                body[0], ast.Return) and isinstance(
+                                    body[0].value, ast.Name) and \
+                                body[0].value.id == "self":
+                            self.self_enter.add(n.name)
+
+    def _block(self, stmts: list[ast.stmt]) -> list[ast.stmt]:
+        out: list[ast.stmt] = []
+        i = 0
+        while i < len(stmts):
+            s = stmts[i]
+            nxt = stmts[i + 1] if i + 1 < len(stmts) else None
+            tgt = None
+            if isinstance(s, ast.Assign) and len(s.targets) == 1:
+                tgt = s.targets[0]
+            elif isinstance(s, ast.AnnAssign) and s.value is not None:
+                tgt = s.target
+            if tgt is not None and isinstance(tgt, ast.Name) and isinstance(
+                    s.value, ast.Call) and isinstance(
+                        s.value.func, ast.Name) and \
+                    s.value.func.id in self.self_enter and isinstance(
+                        nxt, ast.With) and len(nxt.items) == 1 and isinstance(
+                            nxt.items[0].context_expr, ast.Name) and \
+                    nxt.items[0].context_expr.id == tgt.id and \
+                    nxt.items[0].optional_vars is None:
+                nxt.items[0] = ast.withitem(
+                    context_expr=s.value,
+                    optional_vars=ast.Name(id=tgt.id, ctx=ast.Store()))
+                self.log.append(f"L{s.lineno}: `{tgt.id} = {s.value.func.id}"
+                                f"(..); with {tgt.id}:` read as `with .. as`")
+                out.append(nxt)
+                i += 2
+                continue
+            out.append(s)
+            i += 1
+        return out
+
+    def generic_visit(self, node):
+        super().generic_visit(node)
+        for fld in ("body", "orelse", "finalbody"):
+            blk = getattr(node, fld, None)
+            if isinstance(blk, list) and blk and isinstance(blk[0], ast.stmt):
+                setattr(node, fld, self._block(blk))
+        return node
 
 
 class FlattenLoopNormaliser(ast.NodeTransformer):
@@ -522,8 +584,48 @@ class AliasInliner(ast.NodeTransformer):
                 root = root.value
                 depth += 1
             if not (isinstance(t, ast.Name) and depth >= 1 and isinstance(
-                    root, ast.Name) and root.id in ("self", "cls")):
+                    root, ast.Name)):
                 continue
+            if root.id not in ("self", "cls"):
+                # a chain on a local / parameter: the local must be final
+                # where the alias is made (all its stores come earlier, the
+                # alias is not made inside a loop)
+                in_loop = any(isinstance(lp, (ast.For, ast.While, ast.AsyncFor))
+                              and any(x is st for x in ast.walk(lp))
+                              for lp in ast.walk(node))
+                later = [x for x in stores.get(root.id, [])
+                         if getattr(x, "lineno", 0) >= st.lineno]
+                mutated = any(
+                    isinstance(x, ast.Attribute) and isinstance(
+                        x.ctx, (ast.Store, ast.Del)) and ast.unparse(
+                            x).startswith(root.id + ".")
+                    for x in ast.walk(node))
+                # only the plain one-step form (`f = obj.method`): deeper
+                # chains on locals are what the rules' own normal forms name
+                if in_loop or later or root.id == t.id or depth != 1 or mutated:
+                    continue
+                # ... and only a *callable* alias (`f = obj.method`): every
+                # use calls it or hands it to a mapping call as the function
+                uses_ = [x for x in ast.walk(node) if isinstance(x, ast.Name)
+                         and x.id == t.id and isinstance(x.ctx, ast.Load)]
+                parents_ = {}
+                for p_ in ast.walk(node):
+                    for ch in ast.iter_child_nodes(p_):
+                        parents_[id(ch)] = p_
+
+                def callable_use(u):
+                    p_ = parents_.get(id(u))
+                    if isinstance(p_, ast.Call) and p_.func is u:
+                        return True
+                    return isinstance(p_, ast.Call) and p_.args and \
+                        p_.args[0] is u and isinstance(
+                            p_.func, (ast.Attribute, ast.Name)) and (
+                                p_.func.attr if isinstance(
+                                    p_.func, ast.Attribute) else p_.func.id
+                            ) in ("map", "imap", "imap_unordered", "submit",
+                                  "starmap", "filter")
+                if not uses_ or not all(callable_use(u) for u in uses_):
+                    continue
             if len(stores.get(t.id, [])) != 1 or t.id in nested_names:
                 continue
             # the attribute must not be re-assigned before the last use
